@@ -424,6 +424,10 @@ class NFANode(object):
 
     def __init__(self):
         self.transitions = defaultdict(set)
+        # Destinations of the empty transitions which *start* at this node.
+        # (``transitions[None]`` lists empty transitions in both directions
+        # but an empty transition may only be followed forwards.)
+        self.forward_empty_transitions = set()
 
     def add_transition(self, dest_node, symbol=None):
         """
@@ -436,6 +440,7 @@ class NFANode(object):
             # Empty transitions should be bidirectional
             self.transitions[symbol].add(dest_node)
             dest_node.transitions[symbol].add(self)
+            self.forward_empty_transitions.add(dest_node)
         else:
             self.transitions[symbol].add(dest_node)
 
@@ -450,7 +455,7 @@ class NFANode(object):
             node = to_visit.pop()
             yield node
 
-            for other in node.transitions.get(None, []):
+            for other in node.forward_empty_transitions:
                 if other not in visited:
                     to_visit.append(other)
                     visited.add(other)
